@@ -38,6 +38,11 @@ theorem tie_errorExit : putReplicasConds.getD 6 "" = "if active == 0 && retriesR
 theorem tie_retryable (code : Nat) : ArvVerif.C11.retryable code =
     (code == 0 || code == 408 || code == 429 || (decide (code ≥ 500) && code != 503)) := rfl
 
+/-- the only methods of the client that putReplicas calls: the request id, the writable roots and
+the uploader — no call that reads or writes anything remembered from earlier Puts (`putSeq`) -/
+theorem tie_putReplicasClientCalls : putReplicasKcCalls =
+    ["kc.getRequestID", "kc.WritableLocalRoots", "kc.uploadToKeepServer"] := rfl
+
 /-- the only two returns: the InsufficientReplicasError and the nil-error return (`Res`) -/
 theorem tie_putReplicasReturns : putReplicasReturns =
     ["locator, replicasDone, InsufficientReplicasError(errors.New(msg))",
